@@ -53,11 +53,18 @@ def children(ctx, n, recursive):
     got_pids = [c.pid for c in got]
     ctx.observe("children", got_pids)
 
+    check_children(ctx, pids, pp, st, caller, got_pids, recursive, cost=cost, n=n)
+
+
+def check_children(ctx, pids, pp, st, caller, got_pids, recursive, cost=None, n=None, victim=None):
+    """the statement's oracle for children(); `victim` = a process that vanished while the tree was walked: it may or may not be
+    reported itself, and processes reachable only through it may or may not be (the statement is silent), everything else as usual"""
     def is_parent(child, parent):
         return bool(pp[child] == parent)         # decided (forks in symbolic mode)
 
     young = {p: (st[p] >= st[caller]) for p in pids}
-    ctx.prove(cost <= 6 * n * n + 12, "terminates", detail=f"{cost} OS accesses")
+    if cost is not None:
+        ctx.prove(cost <= 6 * n * n + 12, "terminates", detail=f"{cost} OS accesses")
     ctx.prove(len(got_pids) == len(set(got_pids)), "each-once", detail=f"{got_pids}")
     ctx.prove(caller not in got_pids, "never-itself", detail=f"{got_pids}")
     ctx.prove(ctx.all([young[p] for p in got_pids]), "never-older-than-caller")
@@ -66,7 +73,8 @@ def children(ctx, n, recursive):
             if p == caller:
                 continue
             direct = is_parent(p, caller)
-            ctx.prove(ctx.implies(ctx.all([direct, young[p]]), p in got_pids), "direct-children-included")
+            if p != victim:
+                ctx.prove(ctx.implies(ctx.all([direct, young[p]]), p in got_pids), "direct-children-included", detail=f"{p} missing from {got_pids}" + (f" (vanished: {victim})" if victim else ""))
             ctx.prove(ctx.implies(p in got_pids, direct), "only-direct-children")
     else:
         edges = {p: [q for q in pids if q != p and is_parent(q, p)] for p in pids}
@@ -83,8 +91,8 @@ def children(ctx, n, recursive):
 
         allowed = reach(lambda c: True)
         ctx.prove(set(got_pids) - {caller} <= allowed, "only-reachable", detail=f"{got_pids} vs {sorted(allowed)}")
-        req = reach(lambda c: bool(young[c]))
-        ctx.prove(req <= set(got_pids), "reachable-included", detail=f"{got_pids} vs {sorted(req)}")
+        req = reach(lambda c: bool(young[c]) and c != victim)
+        ctx.prove(req <= set(got_pids), "reachable-included", detail=f"{got_pids} vs {sorted(req)}" + (f" (vanished: {victim})" if victim else ""))
 
 
 @harness("C05.children_vanish", quick=[dict(n=3, recursive=r) for r in (False, True)], thorough=[dict(n=n, recursive=r) for n in (3, 4) for r in (False, True)])
@@ -108,8 +116,7 @@ def children_vanish(ctx, n, recursive):
         me = psutil.Process(caller)
         got = ctx.guard("no-exception", me.children, recursive=recursive)
     got_pids = [c.pid for c in got]
-    ctx.prove(len(got_pids) == len(set(got_pids)) and caller not in got_pids, "each-once")
-    ctx.prove(ctx.all([st[p] >= st[caller] for p in got_pids]), "never-older-than-caller")
+    check_children(ctx, pids, pp, st, caller, got_pids, recursive, victim=victim)
 
 
 @harness("C05.parent", quick=[dict(n=n) for n in (1, 2, 3)], thorough=[dict(n=n) for n in (1, 2, 3, 4)])
@@ -175,3 +182,51 @@ def recycled_caller(ctx, which):
         except psutil.NoSuchProcess as e:
             exc = e
     ctx.prove(alive is False and exc is not None and exc.pid == caller, "recycled-caller-NoSuchProcess", detail=f"{which}: is_running={alive} exc={exc!r}")
+
+
+@harness("C05.after_iter", quick=[dict(which=w) for w in ("parent", "parents", "children", "children_r")], thorough=[dict(which=w, n=n) for w in ("parent", "parents", "children", "children_r") for n in (3, 4)])
+def after_iter(ctx, which, n=3):
+    """the answers describe the process table as it is NOW, whatever psutil was asked before: first process_iter(attrs=[...]) fills
+    its cache (objects with create_time / ppid already evaluated), then one PID other than the caller's is recycled by a new process
+    (fresh start ticks and parent, both symbolic), then the tree is queried"""
+    k, pids, pp, st = world(ctx, n)
+    caller = pids[-1] if which in ("parent", "parents") else pids[0]
+    with k.installed():
+        attrs = ctx.choice("attrs", [["create_time", "ppid"], ["name"], None])
+        warm = list(psutil.process_iter(attrs)) if attrs else list(psutil.process_iter())
+        me_cached = [p for p in warm if p.pid == caller][0]
+        victim = ctx.choice("recycled", [p for p in pids if p != caller])
+        new_start = ctx.int("new_start", 0, 10**6)
+        ctx.assume(ctx.neg(ctx.eq(new_start, st[victim])))
+        new_pp = ctx.int("new_ppid", 0, 100)
+        ctx.assume(ctx.any([ctx.eq(new_pp, q) for q in pids] + [ctx.eq(new_pp, UNLISTED)]))
+        st[victim], pp[victim] = new_start, new_pp
+        k.files[f"/proc/{victim}/stat"] = simk.stat_record(k, victim, b"other", b"S", {4: new_pp, 22: new_start})
+        me = me_cached if ctx.flag("use_cached_object") else psutil.Process(caller)
+        if which in ("children", "children_r"):
+            got = ctx.guard("no-exception", me.children, recursive=(which == "children_r"))
+            check_children(ctx, pids, pp, st, caller, [c.pid for c in got], which == "children_r")
+        elif which == "parent":
+            par = ctx.guard("no-exception", me.parent)
+            ppid = pp[caller]
+            listed = [q for q in pids if bool(ppid == q)]
+            if caller == pids[0] or not listed:
+                ctx.prove(par is None, "parent", detail="no listed parent")
+            else:
+                q = listed[0]
+                older = bool(st[q] <= st[caller])
+                ctx.prove((par is not None and par.pid == q and par.is_running()) if older else par is None, "parent",
+                          detail=f"ppid={q} parent-not-younger={older} got={par.pid if par is not None else None}")
+        else:
+            chain, cur, steps = [], caller, 0
+            while cur != pids[0]:
+                q = [x for x in pids if bool(pp[cur] == x)]
+                if not q or not bool(st[q[0]] <= st[cur]):
+                    break
+                cur = q[0]
+                chain.append(cur)
+                steps += 1
+                if steps > n + 1:
+                    ctx.assume(False)
+            got = ctx.guard("no-exception", me.parents)
+            ctx.prove([p.pid for p in got] == chain, "parents-chain", detail=f"{[p.pid for p in got]} vs {chain}")
